@@ -149,6 +149,10 @@ func (t *fnTrans) instr(in ssa.Instruction) {
 			t.oblige("safety", "panic", "explicit panic unreachable", "false", in.Pos())
 		}
 	case *ssa.Return:
+		if t.inl != nil {
+			t.inl.returns = append(t.inl.returns, inlReturn{in, t.inl.cur, t.cur})
+			return
+		}
 		t.ret(in)
 	case *ssa.If, *ssa.Jump:
 	case *ssa.Send:
@@ -210,6 +214,13 @@ func (t *fnTrans) fromInt(x Term, ty types.Type) Term {
 func (t *fnTrans) alloc(in *ssa.Alloc) {
 	et := in.Type().(*types.Pointer).Elem()
 	if !in.Heap {
+		if _, ok := t.cellName[in]; !ok {
+			pre := ""
+			if t.inl != nil {
+				pre = t.inl.prefix
+			}
+			t.cellName[in] = fmt.Sprintf("C_%s%s_%s", pre, sanitize(in.Comment), sanitize(in.Name()))
+		}
 		name := t.cellName[in]
 		t.stateVar(name, t.S.sortOf(et), "cell", false, et)
 		t.declare(name+"_0", t.S.sortOf(et))
